@@ -3,13 +3,15 @@
    as it stops being a viable prefix of a literal.  Exact: the transcribed reader equals the
    denotation on every well-formed literal.  With Emit, every well-formed literal is printed
    with its denotation (digit sequence + exponent) for replay into the real parser.       *)
-EXTENDS Literal, Json
+EXTENDS Literal, Lexer, Json
 CONSTANTS MaxLen, Alphabet, Emit
 VARIABLE s
 Init == s = <<>>
 Next == /\ Len(s) < MaxLen
         /\ \E c \in Alphabet : s' = Append(s, c) /\ Viable(s')
 Exact == WellFormed(s) => (FromStr(s).ok /\ FromStr(s).v = Denote(s))
+\* the lexer takes every well-formed literal as exactly one NUMBER token (so a query sees the same text)
+LexOne == WellFormed(s) => LET t == Lex(s) IN Len(t) = 1 /\ t[1].k = "NUMBER"
 EmitInv == (Emit /\ WellFormed(s)) =>
              PrintT(<<"VEC", ToJson([src |-> s, neg |-> Denote(s).neg, ds |-> Denote(s).ds, e |-> Denote(s).e])>>)
 =============================================================================
